@@ -142,6 +142,184 @@ func (t tableSpec) attrCols() []colSpec {
 	return r
 }
 
+// pkType: the declared type of the primary key column.  Only a key declared exactly INTEGER is an alias of the rowid:
+// its order is the order in which the table stores (and a SELECT without ORDER BY returns) the rows.  INT PRIMARY KEY,
+// TEXT PRIMARY KEY are ordinary columns with a unique index: the stored order is the insertion order, whatever the keys.
+func (t tableSpec) pkType() string {
+	for _, c := range t.Cols {
+		if c.PK == 1 {
+			return c.Type
+		}
+	}
+	return ""
+}
+
+func (t tableSpec) pkIsRowid() bool { return strings.EqualFold(t.pkType(), "INTEGER") }
+
+// decorateTable gives a generated table what the repairs F18 - F20 and the source order are about.  The choice is a function
+// of the table (name, column names and types), so it does not disturb the random stream the generators draw from; force
+// (bits: 1 names, 2 kinds, 4 key) makes a choice certain.
+//
+//	names: attribute columns named by SQL keywords (order, group, select, table, ..), with a space, a dash, a leading digit,
+//	  an embedded double quote, a comma, non-ASCII letters; the primary key by a keyword / with a space / a dash / a leading
+//	  digit / non-ASCII (the GeoPackage library writes the key as "name" without doubling a quote); the geometry column by a
+//	  keyword / with a leading digit / non-ASCII (the library writes it bare inside rtree_<table>_<column>_insert, so only
+//	  what may continue an identifier)
+//	kinds: attribute columns declared BOOLEAN / boolean (cells NULL, 0, 1) and BLOB (arbitrary bytes)
+//	key:   INT PRIMARY KEY or TEXT PRIMARY KEY instead of INTEGER PRIMARY KEY (no rowid alias; genStream shuffles the keys)
+func decorateTable(t *tableSpec, force int) {
+	if force < 0 { // classes that are about something else keep their plain tables
+		return
+	}
+	h := fnv.New64a()
+	h.Write([]byte(t.Name))
+	for _, c := range t.Cols {
+		h.Write([]byte(c.Name + "|" + c.Type + ";"))
+	}
+	r := rand.New(rand.NewSource(int64(h.Sum64()) ^ 0x5deece66d))
+	doNames := r.Intn(2) == 0 || force&1 != 0
+	doKinds := r.Intn(3) > 0 || force&2 != 0
+	doKey := r.Intn(4) == 0 || force&4 != 0
+	used := map[string]bool{}
+	for _, c := range t.Cols {
+		used[strings.ToLower(c.Name)] = true
+	}
+	fresh := func(base string, i int) string { // SQLite compares column names without regard to (ASCII) case
+		n := base
+		for used[strings.ToLower(n)] {
+			n = fmt.Sprintf("%s%d", base, i)
+			i += 7
+		}
+		used[strings.ToLower(n)] = true
+		return n
+	}
+	if doKinds {
+		kinds := []string{"BOOLEAN", "BLOB", "boolean", "BLOB", "BOOLEAN"}
+		for i := range t.Cols {
+			c := &t.Cols[i]
+			if c.PK == 0 && c.Name != t.GCol && r.Intn(3) == 0 {
+				c.Type = kinds[r.Intn(len(kinds))]
+			}
+		}
+		for n := r.Intn(3); n > 0; n-- {
+			c := colSpec{Name: fresh([]string{"actief", "foto", "is_hoofd", "raw"}[r.Intn(4)], len(t.Cols)), Type: kinds[r.Intn(len(kinds))], NotNull: r.Intn(6) == 0}
+			pos := r.Intn(len(t.Cols) + 1)
+			t.Cols = append(t.Cols[:pos:pos], append([]colSpec{c}, t.Cols[pos:]...)...)
+		}
+	}
+	if doNames {
+		attrNames := []string{"order", "group", "select", "table", "street name", "huis-nr", "1e_verdieping", `a"b`, `naam "x"`, "ünï cödé",
+			"from", "where", "index", "values", `"`, "a,b", " lead", "Order By", "x'y", "primary", "not null", "(a)", "a;b", "100%"}
+		for i := range t.Cols {
+			c := &t.Cols[i]
+			switch {
+			case c.Name == t.GCol:
+				if r.Intn(3) == 0 {
+					c.Name = fresh([]string{"select", "table", "1geom", "géom", "group", "order"}[r.Intn(6)], i)
+					t.GCol = c.Name
+				}
+			case c.PK == 1:
+				if r.Intn(3) == 0 {
+					c.Name = fresh([]string{"order", "group by", "id-nr", "1id", "prim key", "ключ", "index", "a,b"}[r.Intn(8)], i)
+				}
+			case r.Intn(2) == 0:
+				c.Name = fresh(attrNames[r.Intn(len(attrNames))], i)
+			}
+		}
+	}
+	if doKey {
+		for i := range t.Cols {
+			if t.Cols[i].PK == 1 {
+				t.Cols[i].Type = []string{"INT", "INT", "TEXT"}[r.Intn(3)]
+			}
+		}
+	}
+}
+
+// bareName: may the name be written into SQL as it is (letters, digits, underscore, bytes above 0x7f; no leading digit; none
+// of the keywords the generators use)
+func bareName(n string) bool {
+	if n == "" || (n[0] >= '0' && n[0] <= '9') {
+		return false
+	}
+	for _, ch := range n {
+		if !(ch == '_' || ch >= 0x80 || (ch >= '0' && ch <= '9') || (ch >= 'a' && ch <= 'z') || (ch >= 'A' && ch <= 'Z')) {
+			return false
+		}
+	}
+	switch strings.ToLower(n) {
+	case "order", "group", "select", "table", "from", "where", "index", "values", "primary":
+		return false
+	}
+	return true
+}
+
+// plainNames: the table with every column name that needs quoting replaced by a bare one (scaffolding the harness builds
+// in process with the tool's own writer must not depend on what the run under test is about)
+func plainNames(t tableSpec) tableSpec {
+	cols := append([]colSpec{}, t.Cols...)
+	used := map[string]bool{}
+	for _, c := range cols {
+		used[strings.ToLower(c.Name)] = true
+	}
+	for i := range cols {
+		if bareName(cols[i].Name) {
+			continue
+		}
+		n := fmt.Sprintf("q%d", i)
+		for used[n] {
+			n += "_"
+		}
+		used[n] = true
+		if cols[i].Name == t.GCol {
+			t.GCol = n
+		}
+		cols[i].Name = n
+	}
+	t.Cols = cols
+	t.Defaults = nil
+	return t
+}
+
+// tableKinds names what a table has of the above, for the input distribution in the evidence
+func tableKinds(t tableSpec) []string {
+	var out []string
+	bare := bareName
+	nb, nblob, nq := 0, 0, 0
+	for _, c := range t.Cols {
+		if isBoolType(c.Type) {
+			nb++
+		}
+		if isBlobType(c.Type) {
+			nblob++
+		}
+		if !bare(c.Name) {
+			nq++
+			switch {
+			case c.Name == t.GCol:
+				out = append(out, "geometry column name needs quoting (keyword / leading digit)")
+			case c.PK == 1:
+				out = append(out, "primary key name needs quoting")
+			}
+		}
+	}
+	if nb > 0 {
+		out = append(out, "tables with BOOLEAN columns")
+	}
+	if nblob > 0 {
+		out = append(out, "tables with BLOB attribute columns")
+	}
+	if nq > 0 {
+		out = append(out, "tables with column names that need quoting (keyword, space, dash, leading digit, double quote, comma ..)")
+	} else {
+		out = append(out, "tables whose column names are all legal bare identifiers")
+	}
+	if !t.pkIsRowid() {
+		out = append(out, "primary key is no rowid alias ("+strings.ToUpper(t.pkType())+" PRIMARY KEY): keys out of order")
+	}
+	return out
+}
+
 func (t tableSpec) pkName() string {
 	for _, c := range t.Cols {
 		if c.PK == 1 {
@@ -156,6 +334,10 @@ func (t tableSpec) pkName() string {
 // DATE / DATETIME / TIMESTAMP: the SQLite driver parses its text into a time.Time on the way out of the source and
 // writes a time.Time in its own layout ("2006-01-02 15:04:05.999999999-07:00"), so the unchanged tool already
 // changes the TEXT of such a cell; what must survive the copy is the instant, to the nanosecond.
+// 5 blob (pool id T): a BLOB value in an attribute column -- distinct from the text with the same bytes (typeof).
+// 6 boolean: the integer I = 0 / 1 in a column declared BOOLEAN: the SQLite driver hands such a cell over as a Go bool
+// and binds a Go bool as the integer 1 / 0, so ReadFeatures delivers true / false and the target holds the integer
+// again (in the Coq terms it IS that integer: VInt 0 / VInt 1).
 type val struct {
 	K int   `json:"k"`
 	I int64 `json:"i,omitempty"`
@@ -167,6 +349,23 @@ type val struct {
 var textPool = []string{"", "a", "O'Reilly", `say "hi"`, "ünïcödé ✓", "12", " leading and trailing ", "NULL",
 	strings.Repeat("long ", 50), "line\nbreak", "semi;colon -- comment", "%v %d", "tab\tsep"}
 
+// bytes of the blob pool, by id; chosen to need care: empty, a NUL byte, invalid UTF-8, the bytes of texts that are in
+// the text pool too (only typeof tells them apart), valid UTF-8 beyond ASCII, the start of a GeoPackage geometry header,
+// a few hundred arbitrary bytes
+var blobPool = func() [][]byte {
+	long := make([]byte, 300)
+	x := uint32(2463534242)
+	for i := range long {
+		x ^= x << 13
+		x ^= x >> 17
+		x ^= x << 5
+		long[i] = byte(x)
+	}
+	long[0], long[1], long[2] = 0xff, 0x00, 0xc3
+	return [][]byte{{}, {0x00}, {0xff, 0xfe, 0x00, 0x80}, []byte("a"), []byte("O'Reilly"), []byte("ünïcödé ✓"),
+		{'G', 'P', 0x00, 0x01, 0x40, 0x71, 0x00, 0x00}, {0x00, 'a', 0x00}, []byte("12"), {0xc3}, long}
+}()
+
 func (v val) goValue() interface{} {
 	switch v.K {
 	case 1:
@@ -177,8 +376,28 @@ func (v val) goValue() interface{} {
 		return textPool[v.T]
 	case 4: // what ReadFeatures delivers for a date/time column
 		return time.Unix(0, v.I).UTC()
+	case 5: // a copy, never nil (ReadFeatures makes one with make + copy): an empty blob is not NULL
+		return append([]byte{}, blobPool[v.T]...)
+	case 6: // what ReadFeatures delivers for an integer cell of a BOOLEAN column
+		return v.I > 0
+	case 7:
+		return keyText(v.I)
 	}
 	return nil
+}
+
+// keyText: K = 7, the text of a TEXT PRIMARY KEY: 16 digits with leading zeros (as the identifiers of the Dutch base
+// registers).  The rtree of the GeoPackage library takes the integer value of the key as its id.
+func keyText(i int64) string { return fmt.Sprintf("%016d", i) }
+
+// isBoolType: the declared type for which the SQLite driver hands an integer cell over as a Go bool (go-sqlite3 compares
+// the lower-cased declared type with "boolean")
+func isBoolType(typ string) bool { return strings.ToLower(typ) == "boolean" }
+
+// isBlobType: a column the generators fill with blobs (SQLite itself does not care: a blob keeps its storage class in
+// any column)
+func isBlobType(typ string) bool {
+	return strings.EqualFold(typ, "BLOB") || strings.EqualFold(typ, "MEDIUMBLOB")
 }
 
 // isTimeType: the declared types the SQLite driver converts to time.Time (go-sqlite3 compares the lower-cased
@@ -195,6 +414,9 @@ func isTimeType(typ string) bool {
 // "2023-05-17" (DATE) and "2023-05-17T23:59:59.891Z" (DATETIME; whole seconds with or without ".000", finer than
 // milliseconds with nine digits)
 func (v val) srcValue(c colSpec) interface{} {
+	if v.K == 6 { // the source holds the integer
+		return v.I
+	}
 	if v.K != 4 {
 		return v.goValue()
 	}
@@ -221,6 +443,12 @@ func (v val) coq() string {
 		return fmt.Sprintf("VText %d%%N", v.T)
 	case 4:
 		return "VTime " + hc.CoqZ(v.I)
+	case 5:
+		return fmt.Sprintf("VBlob %d%%N", v.T)
+	case 6: // a Go bool is the integer the driver binds it as (Gpkg/SchemaOps.v value_of_bool)
+		return "VInt " + hc.CoqZ(v.I)
+	case 7: // a key text: a text id of its own range
+		return fmt.Sprintf("VText %d%%N", 2000000+v.I)
 	}
 	return "VNull"
 }
@@ -239,48 +467,89 @@ func instantVal(t time.Time) val {
 	return val{K: 4, I: t.UnixNano()}
 }
 
-// valOfCol: a cell of a column with declared type typ.  Date/time columns are read RAW (selectList) and parsed
-// here: equal values = the same instant to the nanosecond, whatever the layout; text that is no date/time at all
-// is not a date/time value (the driver would silently turn it into the zero time on BOTH sides).
-func valOfCol(x interface{}, typ string) val {
-	if !isTimeType(typ) {
-		return valOf(x)
-	}
-	var s string
-	switch v := x.(type) {
-	case time.Time:
-		return instantVal(v)
-	case string:
-		s = v
-	case []byte:
-		s = string(v)
-	default:
-		return valOf(x) // NULL, or a number where a date/time text was written
-	}
-	for _, l := range timeLayouts {
-		if t, err := time.Parse(l, s); err == nil {
-			return instantVal(t)
+// cellVal: a cell of a column with declared type typ, read RAW (selectList hands every attribute cell over as the
+// expression +"c", which has no declared type: the driver converts nothing) together with SQLite's typeof() of the
+// cell.  The storage class decides what the value is: a TEXT and a BLOB with the same bytes are different values.
+// Date/time columns: a text is parsed here: equal values = the same instant to the nanosecond, whatever the layout;
+// text that is no date/time at all is not a date/time value (the driver would silently turn it into the zero time on
+// BOTH sides).  BOOLEAN columns: the integers 0 / 1 are the boolean values.
+func cellVal(x interface{}, typeof string, typ string) val {
+	odd := func(code int) val { return val{K: 3, T: code} }
+	switch typeof {
+	case "null":
+		if x != nil {
+			return odd(999990)
 		}
+		return val{}
+	case "integer":
+		i, ok := x.(int64)
+		if !ok {
+			return odd(999991)
+		}
+		if isBoolType(typ) && (i == 0 || i == 1) {
+			return val{K: 6, I: i}
+		}
+		return val{K: 1, I: i}
+	case "real":
+		f, ok := x.(float64)
+		if !ok {
+			return odd(999992)
+		}
+		return valOf(f)
+	case "text":
+		var t string
+		switch v := x.(type) {
+		case string:
+			t = v
+		case []byte:
+			t = string(v)
+		default:
+			return odd(999993)
+		}
+		if !isTimeType(typ) {
+			if len(t) == 16 && strings.Trim(t, "0123456789") == "" {
+				if i, err := strconv.ParseInt(t, 10, 64); err == nil {
+					return val{K: 7, I: i}
+				}
+			}
+			return textVal(t)
+		}
+		for _, l := range timeLayouts {
+			if tm, err := time.Parse(l, t); err == nil {
+				return instantVal(tm)
+			}
+		}
+		return odd(999996)
+	case "blob":
+		b, ok := x.([]byte)
+		if !ok {
+			return odd(999994)
+		}
+		return blobVal(b)
 	}
-	return val{K: 3, T: 999996}
+	return odd(999995)
 }
 
-// selectList: every column by name; date/time columns as +"c" (an expression has no declared type: the driver hands
-// the stored text over as it is)
-func selectList(cols []colSpec) string {
-	l := make([]string, len(cols))
-	for i, c := range cols {
-		if isTimeType(c.Type) {
-			l[i] = fmt.Sprintf(`+"%s" AS "%s"`, c.Name, c.Name)
+// qid: a name as an SQL identifier (the harness's own statements quote every table and column name)
+func qid(name string) string { return `"` + strings.ReplaceAll(name, `"`, `""`) + `"` }
+
+// selectList: per column the cell and SQLite's typeof of it.  An attribute cell is read as +"c" (an expression has no
+// declared type: the driver hands the stored value over as it is -- no time.Time for DATE / DATETIME / TIMESTAMP, no
+// bool for BOOLEAN), the geometry column as it is.  Result column 2i is the cell of column i, 2i+1 its typeof.
+func selectList(cols []colSpec, gcol string) string {
+	l := make([]string, 0, 2*len(cols))
+	for _, c := range cols {
+		if c.Name == gcol {
+			l = append(l, qid(c.Name), "typeof("+qid(c.Name)+")")
 		} else {
-			l[i] = fmt.Sprintf(`"%s"`, c.Name)
+			l = append(l, "+"+qid(c.Name), "typeof("+qid(c.Name)+")")
 		}
 	}
 	return strings.Join(l, ", ")
 }
 
 func tableInfo(db *sql.DB, table string) (cols []colSpec, dflt []bool, err error) {
-	rows, err := db.Query(fmt.Sprintf(`PRAGMA table_info('%s')`, table))
+	rows, err := db.Query(fmt.Sprintf(`PRAGMA table_info(%s)`, qid(table)))
 	if err != nil {
 		return nil, nil, err
 	}
@@ -298,13 +567,11 @@ func tableInfo(db *sql.DB, table string) (cols []colSpec, dflt []bool, err error
 	return cols, dflt, rows.Err()
 }
 
-// valOf maps a value read back by database/sql to the abstract value (text not in the pool: id 999999)
+// valOf maps a number read back by database/sql to the abstract value
 func valOf(x interface{}) val {
 	switch v := x.(type) {
 	case nil:
 		return val{}
-	case time.Time:
-		return instantVal(v)
 	case int64:
 		return val{K: 1, I: v}
 	case float64:
@@ -313,14 +580,11 @@ func valOf(x interface{}) val {
 			return val{K: 2, R: int64(r)}
 		}
 		return val{K: 2, R: 1<<62 + int64(math.Float64bits(v)%1000)}
-	case []byte:
-		return textVal(string(v))
-	case string:
-		return textVal(v)
 	}
 	return val{K: 3, T: 999998}
 }
 
+// textVal / blobVal: the pool id of a text / of a blob (not in the pool: id 999999)
 func textVal(s string) val {
 	for i, t := range textPool {
 		if t == s {
@@ -328,6 +592,15 @@ func textVal(s string) val {
 		}
 	}
 	return val{K: 3, T: 999999}
+}
+
+func blobVal(b []byte) val {
+	for i, t := range blobPool {
+		if string(t) == string(b) {
+			return val{K: 5, T: i}
+		}
+	}
+	return val{K: 5, T: 999999}
 }
 
 // geomSpec: Kind 1 point, 2 linestring, 3 polygon, 4 multipoint, 5 multilinestring, 6 multipolygon.
@@ -572,7 +845,7 @@ func knownSrsSpec(id int) (srsSpec, bool) {
 }
 
 func (c colSpec) ddl() string {
-	s := c.Name + " " + c.Type
+	s := qid(c.Name) + " " + c.Type
 	if c.NotNull {
 		s += " NOT NULL"
 	}
@@ -602,7 +875,7 @@ func createSource(path string, tables []tableSpec) (*gs.Handle, error) {
 				defs[i] += " DEFAULT " + d
 			}
 		}
-		if _, err = h.Exec(fmt.Sprintf(`CREATE TABLE "%s"(%s)`, t.Name, strings.Join(defs, ", "))); err != nil {
+		if _, err = h.Exec(fmt.Sprintf(`CREATE TABLE %s(%s)`, qid(t.Name), strings.Join(defs, ", "))); err != nil {
 			return nil, fmt.Errorf("create %s: %w", t.Name, err)
 		}
 		var e [4]interface{} // NULL unless the source records an extent
@@ -619,6 +892,51 @@ func createSource(path string, tables []tableSpec) (*gs.Handle, error) {
 		}
 	}
 	return h, nil
+}
+
+// insertRows stores features as rows of a source table, in the given order (plain SQL; date/times as the GeoPackage text
+// forms, booleans as the integers 0 / 1, blobs as blobs)
+func insertRows(h *gs.Handle, t tableSpec, attrs [][]val, geoms []geom.Geometry) error {
+	if len(attrs) == 0 {
+		return nil
+	}
+	tx, err := h.Begin()
+	if err != nil {
+		return err
+	}
+	var names, marks []string
+	for _, c := range t.Cols {
+		names = append(names, qid(c.Name))
+		marks = append(marks, "?")
+	}
+	stmt, err := tx.Prepare(fmt.Sprintf(`INSERT INTO %s(%s) VALUES(%s)`, qid(t.Name), strings.Join(names, ","), strings.Join(marks, ",")))
+	if err != nil {
+		_ = tx.Rollback()
+		return err
+	}
+	for i := range attrs {
+		var args []interface{}
+		ai := 0
+		for _, c := range t.Cols {
+			if c.Name == t.GCol {
+				sb, err := gs.NewBinary(int32(t.Srs.ID), geoms[i])
+				if err != nil {
+					_ = tx.Rollback()
+					return err
+				}
+				args = append(args, sb)
+			} else {
+				args = append(args, attrs[i][ai].srcValue(c))
+				ai++
+			}
+		}
+		if _, err := stmt.Exec(args...); err != nil {
+			_ = tx.Rollback()
+			return err
+		}
+	}
+	stmt.Close()
+	return tx.Commit()
 }
 
 // ---- reading a GeoPackage back -------------------------------------------------------------------------------
@@ -779,39 +1097,30 @@ func readFile(path string) obsFile {
 		if t.Cols, t.Dflt, err = tableInfo(db, t.Name); err != nil {
 			return fail(err)
 		}
-		typeOf := map[string]string{}
-		for _, c := range t.Cols {
-			typeOf[c.Name] = c.Type
-		}
-
-		rows, err := db.Query(fmt.Sprintf(`SELECT %s FROM "%s" ORDER BY rowid`, selectList(t.Cols), t.Name))
+		// the rows in the order the table stores them (rowid order = insertion order), NOT in key order
+		rows, err := db.Query(fmt.Sprintf(`SELECT %s FROM %s ORDER BY rowid`, selectList(t.Cols, t.GCol), qid(t.Name)))
 		if err != nil {
 			return fail(err)
 		}
-		names, _ := rows.Columns()
 		for rows.Next() {
-			vals := make([]interface{}, len(names))
-			ptrs := make([]interface{}, len(names))
-			for k := range vals {
-				ptrs[k] = &vals[k]
-			}
-			if err := rows.Scan(ptrs...); err != nil {
+			vals, err := scanCells(rows, len(t.Cols))
+			if err != nil {
 				rows.Close()
 				return fail(err)
 			}
-			row := make([]obsCell, len(names))
-			for k, n := range names {
-				if n == t.GCol {
-					row[k] = obsCell{IsGeom: true, G: decodeGeomCell(vals[k])}
+			row := make([]obsCell, len(t.Cols))
+			for k, c := range t.Cols {
+				if c.Name == t.GCol {
+					row[k] = obsCell{IsGeom: true, G: decodeGeomCell(vals[2*k])}
 				} else {
-					row[k] = obsCell{V: valOfCol(vals[k], typeOf[n])}
+					row[k] = obsCell{V: cellVal(vals[2*k], fmt.Sprint(vals[2*k+1]), c.Type)}
 				}
 			}
 			t.Rows = append(t.Rows, row)
 		}
 		rows.Close()
 
-		rows, err = db.Query(fmt.Sprintf(`SELECT id,minx,maxx,miny,maxy FROM "rtree_%s_%s" ORDER BY id`, t.Name, t.GCol))
+		rows, err = db.Query(fmt.Sprintf(`SELECT id,minx,maxx,miny,maxy FROM %s ORDER BY id`, qid("rtree_"+t.Name+"_"+t.GCol)))
 		if err == nil {
 			t.RtreeOK = true
 			for rows.Next() {
@@ -826,6 +1135,24 @@ func readFile(path string) obsFile {
 		}
 	}
 	return o
+}
+
+// scanCells: the current row of a selectList query over n columns: 2n values (cell, typeof, cell, typeof, ..)
+func scanCells(rows *sql.Rows, n int) ([]interface{}, error) {
+	vals := make([]interface{}, 2*n)
+	ptrs := make([]interface{}, 2*n)
+	for k := range vals {
+		ptrs[k] = &vals[k]
+	}
+	if err := rows.Scan(ptrs...); err != nil {
+		return nil, err
+	}
+	for k := 1; k < len(vals); k += 2 { // typeof comes as string (or []byte with older drivers)
+		if b, ok := vals[k].([]byte); ok {
+			vals[k] = string(b)
+		}
+	}
+	return vals, nil
 }
 
 func sortedKeys(m map[string]int) []string {
